@@ -99,6 +99,8 @@ def check_logs(run, ops_path, alloc_path, cfg):
         op = rec["op"]
         events = by_mark.get(mark, [])
         run.count("steps")
+        if len(rec.get("variant", ())) > 2:
+            run.count("evaluations_through_a_directly_built_problem")
         refs_after = set(rec["refs_after"])
         in_kernel = False
         call_live = set()
